@@ -84,9 +84,37 @@ def result_pfm(fn):
 
 
 # ------------------------------------------------------------------ independent checks on a live model
-def graph_wf(fm):
-    """C02 oracle: walk the returned object graph through public attributes"""
+def written_names(m):
+    """per constraint of a reference model: the sorted set of feature names written in it (None when an
+    aggregate operator makes get_features() mean something else)"""
+    def walk(n, acc):
+        d, l, r = n
+        if d[0] == "s" and l is None and r is None:
+            if not d[1].startswith("'"):
+                acc.add(d[1])
+        agg = d[0] == "op" and d[1] in ("SUM", "AVG", "LEN", "FLOOR", "CEIL")
+        for c in (l, r):
+            if c is not None:
+                agg = walk(c, acc) or agg
+        return agg
+    out = []
+    for _, node in m["ctcs"]:
+        acc = set()
+        out.append(None if walk(node, acc) else sorted(acc))
+    return out
+
+
+def graph_wf(fm, written=None):
+    """C02 oracle: walk the returned object graph through public attributes.
+    written: for documents emitted from a reference model, the names written in each constraint"""
     fails = []
+    if written is not None and all(w is not None for w in written):
+        try:
+            got = sorted(sorted(c.get_features()) for c in fm.ctcs)
+            if got != sorted(written):
+                fails.append(("ctc:features-as-written", f"{got} != {sorted(written)}"))
+        except Exception:  # noqa: BLE001   (reported by the per-constraint clause below)
+            pass
     seen = set()
 
     def walk(f, parent):
